@@ -105,7 +105,8 @@ def rowsOkFor (fns : List String) : Bool :=
   (GoBT.Gen.Writes.sites.all fun r => !fns.contains r.1 || rowOk r) &&
   (fns.all fun f => GoBT.Gen.Writes.sites.any fun r => r.1 == f)
 
-/-- every reviewed exception still exists in the code (a stale review entry is a broken tie too) -/
+/-- every reviewed exception still exists in the code (informational: a reviewed write that has since disappeared is
+    harmless, so this is not an obligation) -/
 def reviewCurrent : Bool := reviewed.all fun e => GoBT.Gen.Writes.sites.any fun r => e.1 == r.1 && e.2.1 == r.2.1 && e.2.2.1 == r.2.2
 
 end GoBT.Interp.WriteReview
